@@ -301,8 +301,12 @@ def _stub_value(rng):
         return None
     if r < 0.26:
         return rng.choice(["nan", "npnan"])
-    if r < 0.32:
+    if r < 0.30:
         return "inf"
+    if r < 0.32:
+        # negative infinity: no metric of the library produces it today, but the loader's
+        # contract ("infinite entries excluded") does not depend on the sign
+        return "ninf"
     if r < 0.45:
         return [rng.choice(["i", "I"]), rng.choice([0, 1, 2, 3, 7, 100, 2**31, 10**15])]
     kind = rng.choice(["unit", "unit", "small", "big", "neg", "tiny", "exact"])
